@@ -558,7 +558,7 @@ pub fn windows_cmd(_c: &J) -> J {
   J::Null
 }
 
-/// lvrun windows <max_len> <shard> <nshards> [reduced_len]
+/// lvrun windows <max_len> <shard> <nshards> [reduced_len] [tiny_len]
 pub fn windows_main(a: &[String]) -> i32 {
   let max_len: usize = a.first().and_then(|s| s.parse().ok()).unwrap_or(3);
   let shard: u64 = a.get(1).and_then(|s| s.parse().ok()).unwrap_or(0);
@@ -574,6 +574,14 @@ pub fn windows_main(a: &[String]) -> i32 {
     // longer windows over the core alphabet (first 32 symbols)
     for len in (max_len + 1)..=reduced_len {
       explore_len(&alpha[..24], len, shard, nshards, &mut t);
+    }
+  }
+  // still longer windows over a tiny core: one representative of every rule's trigger plus a jump, its label and a return
+  let tiny_len: usize = a.get(4).and_then(|s| s.parse().ok()).unwrap_or(0);
+  if tiny_len > reduced_len.max(max_len) {
+    let core: Vec<S> = [0usize, 1, 2, 4, 6, 7, 8, 10, 17, 18, 20, 30, 22].iter().map(|i| alpha[*i]).collect();
+    for len in (reduced_len.max(max_len) + 1)..=tiny_len {
+      explore_len(&core, len, shard, nshards, &mut t);
     }
   }
   if shard == 0 {
